@@ -585,8 +585,20 @@ fn unseen(c: &mut Case) {
     let j = inp.cat[which];
     let seen = &rf.cats[j];
     // candidate unseen codes
-    let mut kind = *c.rng.pick(&["new-code", "code-of-another-categorical-column", "neighbour-of-seen-code", "extreme-code"]);
+    let mut kind = *c.rng.pick(&["new-code", "code-of-another-categorical-column", "neighbour-of-seen-code", "extreme-code", "seen-code-plus-multiple-of-65536"]);
     let mut val: Option<f64> = None;
+    if kind == "seen-code-plus-multiple-of-65536" {
+        // an unseen integer beyond the range of the internal 16-bit category code that is congruent to a
+        // fitted code (exactly representable in f32 and f64); the largest fitted code is avoided because a
+        // saturating conversion maps every large value onto 65535
+        let s = *c.rng.pick(seen);
+        let v = s + 65536.0 * c.rng.us(1, 3) as f64;
+        if seen.contains(&65535.0) {
+            kind = "new-code";
+        } else {
+            val = Some(v);
+        }
+    }
     if kind == "code-of-another-categorical-column" {
         let mut cands: Vec<f64> = Vec::new();
         for &o in &inp.cat {
